@@ -226,6 +226,14 @@ structure CoreKeeps (op : M α) : Prop where
   keeps : ∀ (m : Mgr) (ext : Nat → Nat), Inv m → Counts m ext → ∀ r m', op m = (r, m') →
     Inv m' ∧ Counts m' ext ∧ Held m.tbl m'.tbl ext
 
+/-- the same for one start state (for operations whose precondition depends on the state,
+e.g. `find_or_add` at a level above both children) -/
+def CoreKeepsAt (m : Mgr) (op : M α) : Prop :=
+  ∀ (ext : Nat → Nat), Inv m → Counts m ext → ∀ r m', op m = (r, m') →
+    Inv m' ∧ Counts m' ext ∧ Held m.tbl m'.tbl ext
+
+theorem CoreKeeps.at {op : M α} (h : CoreKeeps op) (m : Mgr) : CoreKeepsAt m op := h.keeps m
+
 /-- an operation that does not touch the state -/
 def MRead (x : M α) : Prop := ∀ m, (x m).2 = m
 
@@ -245,6 +253,26 @@ def AKeeps (h : Nat) (x : AM α) : Prop :=
     AInv a' ∧ (∀ j : Nat, j ≠ h → a'.handles[j]? = a.handles[j]?) ∧
     (∀ (j : Nat) (u : Int), a.handles[j]? = some u →
       a'.m.tbl.Mem u ∧ ∀ asg, denN a'.m.tbl u asg = denN a.m.tbl u asg)
+
+/-- the guarantee for one start state -/
+def AKeepsAt (a : AMgr) (h : Nat) (x : AM α) : Prop :=
+  AInv a → a.handles.contains h = false → ∀ r a', x a = (r, a') →
+    AInv a' ∧ (∀ j : Nat, j ≠ h → a'.handles[j]? = a.handles[j]?) ∧
+    (∀ (j : Nat) (u : Int), a.handles[j]? = some u →
+      a'.m.tbl.Mem u ∧ ∀ asg, denN a'.m.tbl u asg = denN a.m.tbl u asg)
+
+/-- the same for an operation that creates at most the handles in the list `H` (`BDD.succ`
+creates two; comparisons create none) -/
+def AKeepsL (H : List Nat) (x : AM α) : Prop :=
+  ∀ a, AInv a → (∀ h, h ∈ H → a.handles.contains h = false) → ∀ r a', x a = (r, a') →
+    AInv a' ∧ (∀ j : Nat, j ∉ H → a'.handles[j]? = a.handles[j]?) ∧
+    (∀ (j : Nat) (u : Int), a.handles[j]? = some u →
+      a'.m.tbl.Mem u ∧ ∀ asg, denN a'.m.tbl u asg = denN a.m.tbl u asg)
+
+theorem AKeeps.toL {x : AM α} {h : Nat} (hk : AKeeps h x) : AKeepsL [h] x := by
+  intro a hi hf r a' he
+  obtain ⟨i, s, d⟩ := hk a hi (hf h List.mem_cons_self) r a' he
+  exact ⟨i, fun j hj => s j (fun e => hj (e ▸ List.mem_cons_self)), d⟩
 
 /-- an autoref-level read -/
 def ARead (x : AM α) : Prop := ∀ a, (x a).2 = a
@@ -332,16 +360,16 @@ theorem wrap_total (a : AMgr) (h : Nat) (u : Int) (hi : AInv a) (hf : a.handles.
 
 /-- `r = self._bdd.<op>(…); return self._wrap(r)`: only the frame property of the core
 operation is needed — `_wrap` itself refuses an integer that is not a stored node -/
-theorem wrapResult_keeps {core : M Int} (hs : CoreKeeps core) (h : Nat) :
-    AKeeps h (wrapResult h core) := by
-  intro a hi hfr r a' he
+theorem wrapResult_keepsAt {core : M Int} (a : AMgr) (hs : CoreKeepsAt a.m core) (h : Nat) :
+    AKeepsAt a h (wrapResult h core) := by
+  intro hi hfr r a' he
   unfold wrapResult at he
   change AM.bind' (AM.liftM core) (fun r => AM.bind' (wrap h r) (fun _ => AM.pure' r)) a = _ at he
   unfold AM.bind' AM.liftM at he
   cases hop : core a.m with
   | mk r0 m' =>
     rw [hop] at he
-    obtain ⟨h1, h2, h3⟩ := hs.keeps a.m (aext a) hi.inv hi.counts r0 m' hop
+    obtain ⟨h1, h2, h3⟩ := hs (aext a) hi.inv hi.counts r0 m' hop
     obtain ⟨i1, hd⟩ := hi.after_core h1 h2 h3
     cases r0 with
     | error e =>
@@ -358,6 +386,9 @@ theorem wrapResult_keeps {core : M Int} (hs : CoreKeeps core) (h : Nat) :
           cases rw' <;> simp only [AM.pure'] at he <;> cases he <;> rfl
         subst this
         exact ⟨i2, hfr2, fun j u hj => by rw [t2]; exact hd j u hj⟩
+
+theorem wrapResult_keeps {core : M Int} (hs : CoreKeeps core) (h : Nat) :
+    AKeeps h (wrapResult h core) := fun a => wrapResult_keepsAt a (hs.at a.m) h
 
 /-- `Function(r, bdd)` after a core operation (`Function._apply`) -/
 theorem liftM_wrapF_keeps {core : M Int} (hs : CoreKeeps core) (h : Nat) :
@@ -490,6 +521,8 @@ structure CoreSpecs : Prop where
   reorder : ∀ o, CoreKeeps (reorder o)
   declare : ∀ ns, CoreKeeps (declare ns)
   addVar : ∀ n l, CoreKeeps (addVar n l)
+  copyBdd : ∀ src u, CoreKeeps (copyBdd src u)
+  copyVars : ∀ src names, CoreKeeps (copyVarsCore src names)
 
 theorem aVar_keeps (cs : CoreSpecs) (name : String) (h : Nat) : AKeeps h (aVar name h) :=
   wrapResult_keeps (cs.var name) h
@@ -634,14 +667,134 @@ theorem fCopy_keeps (hs : Nat) (h : Nat) : AKeeps h (fCopy hs h) := by
   refine AKeeps.bind_read (nodeOwn_read hs) fun s => ?_
   exact (wrapF_keeps h s).then_read fun _ => ARead.pure _
 
+/-- `configure(reordering=…)` only changes the threshold (no hypothesis) -/
+theorem configure_keeps (r : Option Bool) : CoreKeeps (configure r) := by
+  refine ⟨fun m ext hi hc r' m' he => ?_⟩
+  have key : ∀ l, Inv { m with lastLen := l } ∧ Counts { m with lastLen := l } ext ∧
+      Held m.tbl ({ m with lastLen := l } : Mgr).tbl ext :=
+    fun l => ⟨⟨hi.wf, hi.pred, hi.freeGe, hi.free, hi.refOne, hi.refDom, hi.cache⟩, hc, Held.refl _ _⟩
+  unfold configure at he
+  change M.bind' M.get _ m = _ at he
+  unfold M.bind' M.get at he
+  simp only at he
+  cases r with
+  | none =>
+    change (Except.ok m.lastLen.isSome, m) = _ at he
+    cases he
+    exact ⟨hi, hc, Held.refl _ _⟩
+  | some b =>
+    cases b with
+    | true =>
+      change (Except.ok m.lastLen.isSome, { m with lastLen := some (max Gen.reorderStarts m.len) }) = _ at he
+      cases he
+      exact key _
+    | false =>
+      change (Except.ok m.lastLen.isSome, { m with lastLen := none }) = _ at he
+      cases he
+      exact key _
+
+theorem aConfigure_keeps (r : Option Bool) (h : Nat) : AKeeps h (aConfigure r) :=
+  liftM_keeps (configure_keeps r) h
+
+/-- `find_or_add(var, low, high)`: the wrapper adds no test of its own, so the guarantee
+holds exactly when the core `find_or_add` keeps the invariants for the level and children
+that are read from the current state (its documented precondition: the level is above both
+children) -/
+theorem aFindOrAdd_keepsAt (a : AMgr) (var : String) (hlow hhigh h : Nat)
+    (hfoa : ∀ level lo hi, (levelOfVar var a.m).1 = .ok level → (nodeAny hlow a).1 = .ok lo →
+      (nodeAny hhigh a).1 = .ok hi → CoreKeepsAt a.m (findOrAdd level lo hi)) :
+    AKeepsAt a h (aFindOrAdd var hlow hhigh h) := by
+  intro hi hfr r a' he
+  have triv : AInv a ∧ (∀ j : Nat, j ≠ h → a.handles[j]? = a.handles[j]?) ∧
+      (∀ (j : Nat) (u : Int), a.handles[j]? = some u →
+        a.m.tbl.Mem u ∧ ∀ asg, denN a.m.tbl u asg = denN a.m.tbl u asg) :=
+    ⟨hi, fun _ _ => rfl, fun j u hj => ⟨hi.hmem j u hj, fun _ => rfl⟩⟩
+  unfold aFindOrAdd at he
+  change AM.bind' (AM.liftM (levelOfVar var)) _ a = _ at he
+  unfold AM.bind' at he
+  have h1 := ARead.liftM (levelOfVar_read var) a
+  cases hx1 : AM.liftM (levelOfVar var) a with
+  | mk r1 a1 =>
+    rw [hx1] at he h1
+    simp only at h1
+    subst h1
+    have hl : (levelOfVar var a1.m).1 = r1 := by
+      have := congrArg Prod.fst hx1
+      unfold AM.liftM at this
+      exact this
+    cases r1 with
+    | error e => simp only at he; cases he; exact triv
+    | ok level =>
+      simp only at he
+      change AM.bind' (nodeAny hlow) _ a1 = _ at he
+      unfold AM.bind' at he
+      have h2 := nodeAny_read hlow a1
+      cases hx2 : nodeAny hlow a1 with
+      | mk r2 a2 =>
+        rw [hx2] at he h2
+        simp only at h2
+        subst h2
+        cases r2 with
+        | error e => simp only at he; cases he; exact triv
+        | ok lo =>
+          simp only at he
+          change AM.bind' (nodeAny hhigh) _ a2 = _ at he
+          unfold AM.bind' at he
+          have h3 := nodeAny_read hhigh a2
+          cases hx3 : nodeAny hhigh a2 with
+          | mk r3 a3 =>
+            rw [hx3] at he h3
+            simp only at h3
+            subst h3
+            cases r3 with
+            | error e => simp only at he; cases he; exact triv
+            | ok hi' =>
+              simp only at he
+              have hk := hfoa level lo hi' hl (by rw [hx2]) (by rw [hx3])
+              exact wrapResult_keepsAt a3 hk h hi hfr r a' he
+
+/-- `BDD.copy(u, other)` / `copy_bdd(u, other)` into another manager: a guarantee about the
+*target* (the source is only read) -/
+theorem aCopyTo_keeps (cs : CoreSpecs) (src : AMgr) (hu h : Nat) : AKeeps h (aCopyTo src hu h) := by
+  intro a hi hfr r a' he
+  unfold aCopyTo at he
+  cases hx : nodeIn hu src with
+  | mk r1 s1 =>
+    rw [hx] at he
+    cases r1 with
+    | error e =>
+      simp only at he; cases he
+      exact ⟨hi, fun _ _ => rfl, fun j u hj => ⟨hi.hmem j u hj, fun _ => rfl⟩⟩
+    | ok u =>
+      simp only at he
+      exact wrapResult_keeps (cs.copyBdd src.m.tbl u) h a hi hfr r a' he
+
+theorem aCopyBddTo_keeps (cs : CoreSpecs) (src : AMgr) (hu h : Nat) :
+    AKeeps h (aCopyBddTo src hu h) := by
+  intro a hi hfr r a' he
+  unfold aCopyBddTo at he
+  cases hx : nodeOwn hu src with
+  | mk r1 s1 =>
+    rw [hx] at he
+    cases r1 with
+    | error e =>
+      simp only at he; cases he
+      exact ⟨hi, fun _ _ => rfl, fun j u hj => ⟨hi.hmem j u hj, fun _ => rfl⟩⟩
+    | ok u =>
+      simp only at he
+      exact wrapResult_keeps (cs.copyBdd src.m.tbl u) h a hi hfr r a' he
+
+theorem aCopyVars_keeps (cs : CoreSpecs) (src : Tbl) (names : List String) (h : Nat) :
+    AKeeps h (aCopyVars src names) := liftM_keeps (cs.copyVars src names) h
+
 /-! ### histories -/
 
 /-- one step of a history in which the handles in `P` are never dropped: any operation that
-creates at most one (fresh) handle, or the drop of a live handle outside `P` -/
+creates at most the (fresh) handles `H`, or the drop of a live handle outside `P` -/
 inductive AStep (P : Nat → Prop) : AMgr → AMgr → Prop
-  | op {α : Type} (h : Nat) (x : AM α) (hk : AKeeps h x) (a : AMgr)
-      (hf : a.handles.contains h = false) (r : Except Err α) (a' : AMgr) (he : x a = (r, a')) :
-      AStep P a a'
+  | op {α : Type} (H : List Nat) (x : AM α) (hk : AKeepsL H x) (a : AMgr)
+      (hf : ∀ h, h ∈ H → a.handles.contains h = false) (r : Except Err α) (a' : AMgr)
+      (he : x a = (r, a')) : AStep P a a'
   | drop (h : Nat) (hP : ¬ P h) (a a' : AMgr) (u : Int) (hl : a.handles[h]? = some u)
       (he : drop h a = (.ok (), a')) : AStep P a a'
 
@@ -661,13 +814,13 @@ theorem autoref_live_den (P : Nat → Prop) {a a' : AMgr} (hi : AInv a) (hr : AR
   | step _ hs ih =>
     obtain ⟨ib, hb⟩ := ih
     cases hs with
-    | op h x hk _ hf r _ he =>
+    | op H x hk _ hf r _ he =>
       obtain ⟨ic, hfr, hd⟩ := hk _ ib hf r _ he
       refine ⟨ic, fun j hj u hu => ?_⟩
       obtain ⟨l1, _, d1⟩ := hb j hj u hu
-      have hne : j ≠ h := by
-        intro hjh; subst hjh
-        rw [TreeMap.getElem?_eq_none_of_contains_eq_false hf] at l1
+      have hne : j ∉ H := by
+        intro hjh
+        rw [TreeMap.getElem?_eq_none_of_contains_eq_false (hf j hjh)] at l1
         cases l1
       obtain ⟨m2, d2⟩ := hd j u l1
       exact ⟨by rw [hfr j hne]; exact l1, m2, fun asg => (d2 asg).trans (d1 asg)⟩
